@@ -65,6 +65,9 @@ pub struct Fired {
     pub key_index: usize,
     /// number of nested key reads active (1 = a plain key; 2 = inside the Spanned protocol of a key, ...)
     pub key_depth: usize,
+    /// Some(kind) when the failing callback is the visitor the reader handed *directly* to
+    /// `tuple_variant` / `struct_variant` (the library unpacks that payload itself)
+    pub direct_variant: Option<&'static str>,
 }
 
 pub struct Ctx {
@@ -78,6 +81,8 @@ pub struct Ctx {
     pub hints: RefCell<Vec<HintRec>>,
     keycap: RefCell<Vec<Option<String>>>,
     keyidx: RefCell<Vec<usize>>,
+    /// library-unpacked variant payloads in progress: (kind, hint depth, path length) at the time of the call
+    vstack: RefCell<Vec<(&'static str, usize, usize)>>,
     /// running hashes: shape (kinds+depth only) and digest (with payloads)
     pub shape: Cell<u64>,
     pub digest: Cell<u64>,
@@ -106,6 +111,7 @@ impl Ctx {
             hints: RefCell::new(Vec::new()),
             keycap: RefCell::new(Vec::new()),
             keyidx: RefCell::new(Vec::new()),
+            vstack: RefCell::new(Vec::new()),
             shape: Cell::new(0xcbf29ce484222325),
             digest: Cell::new(0xcbf29ce484222325),
             nev: Cell::new(0),
@@ -167,6 +173,7 @@ impl Ctx {
             seq: self.nev.get(),
             key_index: self.keyidx.borrow().first().copied().unwrap_or(0),
             key_depth: self.keycap.borrow().len(),
+            direct_variant: self.vstack.borrow().last().and_then(|(k, hd, pl)| if *hd == self.hints.borrow().len() && *pl == self.path.borrow().len() { Some(*k) } else { None }),
         });
     }
     fn vis_enter<E: de::Error>(&self, cb: &'static str, payload: &str) -> Result<u32, E> {
@@ -552,7 +559,9 @@ impl<'de, 'c, A: VariantAccess<'de>> VariantAccess<'de> for PVariant<'c, A> {
         let cx = self.cx;
         cx.ev('A', "tuple_variant", &len.to_string());
         cx.path.borrow_mut().push(Seg::Var(self.key));
+        cx.vstack.borrow_mut().push(("tuple_variant", cx.hints.borrow().len(), cx.path.borrow().len()));
         let r = self.a.tuple_variant(len, PVis { v, cx });
+        cx.vstack.borrow_mut().pop();
         cx.path.borrow_mut().pop();
         cx.ev('R', if r.is_ok() { "ok" } else { "err" }, "");
         r
@@ -561,7 +570,9 @@ impl<'de, 'c, A: VariantAccess<'de>> VariantAccess<'de> for PVariant<'c, A> {
         let cx = self.cx;
         cx.ev('A', "struct_variant", &format!("{fields:?}"));
         cx.path.borrow_mut().push(Seg::Var(self.key));
+        cx.vstack.borrow_mut().push(("struct_variant", cx.hints.borrow().len(), cx.path.borrow().len()));
         let r = self.a.struct_variant(fields, PVis { v, cx });
+        cx.vstack.borrow_mut().pop();
         cx.path.borrow_mut().pop();
         cx.ev('R', if r.is_ok() { "ok" } else { "err" }, "");
         r
